@@ -28,13 +28,13 @@ def profile(ptype, width):
             "voigt": lambda: stg.voigt_f_profile(width, width)}[ptype]()
 
 
-def helper(c, gname, d=None, smear=None, level=3.5):
+def helper(c, gname, d=None, smear=None, level=3.5, fr=None, s0=None):
     g = GEOMS[gname]
     unit = g["df"] / FQ
-    fr = frame_for(c, gname)
+    fr = frame_for(c, gname) if fr is None else fr
     d = c["d"] if d is None else d
     smear = c["smear"] if smear is None else smear
-    f_start = g["fmin"] + c["s0"] * unit
+    f_start = g["fmin"] + (c["s0"] if s0 is None else s0) * unit
     # a drift of a whole number of channels per step is given as exactly k * unit_drift_rate
     drift = (d // FQ) * fr.unit_drift_rate if d % FQ == 0 else d * unit / g["dt"]
     width = c["w"] * unit
@@ -119,3 +119,16 @@ def check(out, gname):
         _, hu, _, _, _ = helper(c, gname, smear=False, level=level)
         if np.max(np.abs(hu - h)) > tol:
             raise Div("zero_drift_smeared_equals_unsmeared", "equal", {"max_abs_diff": float(np.max(np.abs(hu - h)))})
+    # a second helper call on the SAME frame, started elsewhere in the band: the array returned by the first call is
+    # untouched, and the second result is what the same call returns on a fresh frame (no state carried on the frame)
+    keep = np.array(h, copy=True)
+    s2 = (c["F"] * FQ - c["s0"]) if 0 <= c["s0"] <= c["F"] * FQ else c["F"] * FQ // 2
+    before = np.array(fr.data, copy=True)
+    _, h2, _, _, _ = helper(c, gname, level=level, fr=fr, s0=s2)
+    if not np.array_equal(h, keep):
+        raise Div("earlier_result_untouched", "array returned by the first call unchanged by a second call", "changed")
+    _, h2f, _, _, _ = helper(c, gname, level=level, s0=s2)
+    if h2.shape != h2f.shape or not np.array_equal(h2, h2f):
+        raise Div("second_call_same_as_on_fresh_frame", "same returned array as on a fresh frame", {"n_different": int(np.sum(h2 != h2f))})
+    if not np.array_equal(fr.data, before + h2):
+        raise Div("data_delta", "frame data == previous data + returned (second call)", "mismatch")
